@@ -775,5 +775,13 @@ V("C13", 'model-eq-identity', 'silent', '', 'an explicit __eq__ that is identity
   ("src/pyhf/pdf.py", '    @property\n    def config(self):\n        """\n        The :class:`_ModelConfig` instance for the model.', '    def __eq__(self, other):\n        return self is other\n\n    def __hash__(self):\n        return id(self)\n\n    @property\n    def config(self):\n        """\n        The :class:`_ModelConfig` instance for the model.'))
 V("C13", 'model-eq-complete', 'silent', '', 'an __eq__ that also compares interpolation settings and both clipping options',
   ("src/pyhf/pdf.py", '    @property\n    def config(self):\n        """\n        The :class:`_ModelConfig` instance for the model.', '    def __eq__(self, other):\n        if not isinstance(other, Model):\n            return NotImplemented\n        return (\n            self.batch_size == other.batch_size\n            and self.spec == other.spec\n            and self.config.modifier_settings == other.config.modifier_settings\n            and self.main_model.clip_sample_data == other.main_model.clip_sample_data\n            and self.main_model.clip_bin_data == other.main_model.clip_bin_data\n            and self.config.poi_name == other.config.poi_name\n        )\n\n    def __hash__(self):\n        return hash(self.batch_size)\n\n    @property\n    def config(self):\n        """\n        The :class:`_ModelConfig` instance for the model.'))
+V("C09", 'toy-band-table-reversed', 'fire', 'C09.R7', 'toy percentile table listed from +2 to -2 sigma',
+  ('src/pyhf/infer/calculators.py', '        normal_percentiles = tb.astensor(\n            [2.27501319, 15.86552539, 50.0, 84.13447461, 97.72498681]\n        )\n', '        normal_percentiles = tb.astensor(\n            [97.72498681, 84.13447461, 50.0, 15.86552539, 2.27501319]\n        )\n'))
+V("C09", 'toy-band-computed-ascending', 'silent', '', 'toy percentile ranks computed as 100*Phi(-2..2)',
+  ('src/pyhf/infer/calculators.py', '        normal_percentiles = tb.astensor(\n            [2.27501319, 15.86552539, 50.0, 84.13447461, 97.72498681]\n        )\n', '        normal_percentiles = 100.0 * tb.normal_cdf(tb.astensor([-2.0, -1.0, 0.0, 1.0, 2.0]))\n'))
+V("C09", 'toy-band-one-sigma-rank-off', 'fire', 'C09.R7', 'the -1 sigma percentile rank replaced by 25',
+  ('src/pyhf/infer/calculators.py', '        normal_percentiles = tb.astensor(\n            [2.27501319, 15.86552539, 50.0, 84.13447461, 97.72498681]\n        )\n', '        normal_percentiles = tb.astensor(\n            [2.27501319, 25.0, 50.0, 84.13447461, 97.72498681]\n        )\n'))
+V("C09", 'toy-band-not-transposed', 'fire', 'C09.R7', 'percentile result returned without the transpose (five rows of three)',
+  ('src/pyhf/infer/calculators.py', '        pvalues_exp_band = tb.transpose(\n            tb.percentile(pvalues, normal_percentiles, axis=0)\n        )\n', '        pvalues_exp_band = tb.percentile(pvalues, normal_percentiles, axis=0)\n'))
 V("C13", "code4-exponent-mask-strict", "fire", "C13.R3", "code 4 takes exponent 1 (a constant) exactly at |alpha| = alpha0",
   ("src/pyhf/interpolators/code4.py", "            exponents >= self.__alpha0, exponents, self.ones", "            exponents > self.__alpha0, exponents, self.ones"))
